@@ -947,11 +947,10 @@ pub fn str_to_int(s: &SmtString) -> i32 {
     let mut x: i32 = 0;
     for &d in &s.s {
         if char_is_digit(d) {
-            let y = 10 * x + (d as i32 - '0' as i32);
-            if y < x {
-                panic!("Arithmetic overflow in str_to_int");
-            }
-            x = y;
+            x = x
+                .checked_mul(10)
+                .and_then(|y| y.checked_add(d as i32 - '0' as i32))
+                .expect("Arithmetic overflow in str_to_int");
         } else {
             return -1;
         }
